@@ -1012,7 +1012,7 @@ def driver_path():
     p = subprocess.run(['ocamlfind', 'ocamlopt', '-w', '-a', 'ftext.mli', 'ftext.ml', 'driver.ml', '-o', 'driver'], cwd=d, capture_output=True, text=True, timeout=600)
     if p.returncode != 0:
         return None, 'ocaml build failed: ' + (p.stderr or p.stdout)[-600:]
-    for junk in ('extract_c07.vo', 'extract_c07.vok', 'extract_c07.vos', 'extract_c07.glob', '.extract_c07.aux'):
+    for junk in ('extract_c07.v', 'extract_c07.vo', 'extract_c07.vok', 'extract_c07.vos', 'extract_c07.glob', '.extract_c07.aux'):
         try:
             os.remove(os.path.join(d, junk))
         except OSError:
